@@ -200,10 +200,68 @@ def run(tier="quick", seed=1, work=None, replay=None, focus="C18", ncases=None):
         # ---- the known stale-row history (O only): mtime and size restored with different content, no sync in between
         for ci in range(2 if tier == "quick" else 10):
             stale_row_history(rep, contents, rng, os.path.join(work, f"stale{ci}"), seed, ci)
+            faulted_update_history(rep, contents, rng, os.path.join(work, f"faulted{ci}"), seed, ci)
             subsecond_history(rep, contents, rng, os.path.join(work, f"subsec{ci}"), seed, ci)
     finally:
         drv.close()
     return rep.to_dict()
+
+# RLIMIT_FSIZE with SIGXFSZ ignored: every write that would take a file beyond 32 KiB fails with EFBIG (sy's own state files are smaller)
+FSIZE_LIMIT = ["sh", "-c", 'trap "" XFSZ; ulimit -f 64; exec "$@"', "sh"]
+
+def faulted_update_history(rep, contents, rng, case, seed, ci):
+    """a sync in which the update of one file FAILS (file-size limit) while the run goes on to its end-of-run bookkeeping,
+    followed by an unrestricted sync: whatever the failed run stored in the database or the caches must not keep the
+    later run from repairing the file.  K: over the whole history every database row's checksum is the checksum of the
+    SOURCE content scanned by that run (one checksum per distinct content, never shared between different contents)."""
+    A, B = os.path.join(case, "A"), os.path.join(case, "B")
+    t1 = (BASE_T + 9000 + ci) * 10**9; t2 = t1 + 40 * 10**9
+    nbig = rng.range(40_000, 90_000); big1 = rng.bytes(nbig)
+    grow = rng.pick([0, 0, 17, -23]); big2 = bytes([big1[0] ^ 0x5A]) + big1[1:nbig + min(grow, 0)] + (rng.bytes(grow) if grow > 0 else b"")
+    small = rng.bytes(rng.range(1, 500))
+    mech = rng.pick([["--checksum", "--checksum-db", "true"], ["--use-cache", "true", "--checksum", "--checksum-db", "true"],
+                     ["--checksum", "--checksum-db", "true", "--prune-checksum-db"]])
+    jj = ["-j", str(rng.pick([1, 4]))]
+    fa = mech + jj; fb = ["--checksum"] + jj
+    for W in (A, B):
+        os.makedirs(os.path.join(W, "src", "d")); os.makedirs(os.path.join(W, "dst"))
+        for rel, c in (("big.bin", big1), ("d/small", small)):
+            p = os.path.join(W, "src", rel); open(p, "wb").write(c); os.utime(p, ns=(t1, t1))
+    hist = [["create big.bin (%d B), d/small" % nbig], ["big.bin: other content (%+d B), later mtime" % grow, "sync under a 32 KiB file-size limit (the update of big.bin fails)"], ["sync without the limit"]]
+    seen = {}     # content id -> checksum bytes, over the whole history
+    dis = []
+    def rows_check(step):
+        rows = db_rows(os.path.join(A, "dst"))
+        if rows is None: return
+        sroot = os.path.join(A, "src")
+        for pth, s_, ns_, sz, ck in rows:
+            if not pth.startswith(sroot + "/") or not os.path.isfile(pth): continue
+            stt = os.lstat(pth)
+            if (s_ * 10**9 + ns_, sz) != (stt.st_mtime_ns, stt.st_size): continue      # a row of an earlier version
+            cid = contents.id(open(pth, "rb").read())
+            for c2, k2 in seen.items():
+                if c2 != cid and k2 == bytes(ck): dis.append(f"step {step}: row {os.path.relpath(pth, sroot)} carries the checksum stored earlier for a DIFFERENT content")
+            if cid in seen and seen[cid] != bytes(ck): dis.append(f"step {step}: row {os.path.relpath(pth, sroot)}: equal contents stored with different checksums")
+            seen.setdefault(cid, bytes(ck))
+    exits = []
+    for st, pre in ((0, None), (1, FSIZE_LIMIT), (2, None)):
+        if st == 1:
+            for W in (A, B):
+                p = os.path.join(W, "src", "big.bin"); open(p, "wb").write(big2); os.utime(p, ns=(t2, t2))
+        ra, _, ea = run_sy([os.path.join(A, "src"), os.path.join(A, "dst"), "--json"] + fa, A, prefix=pre)
+        rb, _, _ = run_sy([os.path.join(B, "src"), os.path.join(B, "dst"), "--json"] + fb, B, prefix=pre)
+        exits.append((ra, rb)); rows_check(st)
+    desc = {"case": ci, "seed": seed, "with": fa, "without": fb, "history": hist, "exits": exits}
+    rep.tag("faulted-update-history"); rep.tag("faulted.limit-hit" if exits[1][1] not in (0, None) else "faulted.limit-not-hit")
+    rep.case(("faulted", ci, nbig, grow, tuple(mech)), True)
+    sa, sb = strip(user_snapshot(os.path.join(A, "dst"), contents, A)), strip(user_snapshot(os.path.join(B, "dst"), contents, B))
+    if (exits[2][0] == 0) != (exits[2][1] == 0):
+        rep.oracle_fail("C18/exit-status-differs", f"after a failed update: with caches exit {exits[2][0]}, without {exits[2][1]}", desc)
+    if sa != sb:
+        ch = sorted(r for r in set(sa) | set(sb) if sa.get(r) != sb.get(r))
+        rep.oracle_fail("C18/destination-differs", f"after a sync whose update of big.bin failed, the next sync leaves different destinations with and without the database/caches at {ch[:4]}", desc)
+    if dis: rep.disagree({"what": dis[:4], **desc})
+    shutil.rmtree(case, ignore_errors=True)
 
 def subsecond_history(rep, contents, rng, case, seed, ci):
     """an edit that keeps the size and lands in the same whole second as the synced version (different nanoseconds):
